@@ -70,6 +70,9 @@ func buildProfile(s *Sim, r *rand.Rand) {
 		if !faultFree && r.IntN(6) == 0 {
 			p.Faults["unsub_pending"] = true
 		}
+		if !faultFree && r.IntN(6) == 0 {
+			p.Faults["get_overlap"] = true
+		}
 		p.Strict = true
 		cfg.Gw.NoUnsubscribeDelay = r.IntN(4) == 0
 		cfg.Gw.ReferenceThrottle = rpick(r, []int{0, 0, 0, 1, 2, 3})
@@ -196,10 +199,41 @@ func cliReq(c *Client, method, params string) Decision {
 	return Decision{K: "cli", A: c.Name, P: mustJSON(cliOp{Op: "req", M: method, P: params})}
 }
 
+// pendingOn: an unanswered non-unsubscribe request of c names rid.
+func (c *Client) pendingOn(rid string, action string) bool {
+	for _, r := range c.ReqL {
+		if r.Resp == nil && r.RID == rid && r.Action != "unsubscribe" && (action == "" || r.Action == action) {
+			return true
+		}
+	}
+	return false
+}
+
 func (s *Sim) genCoreClientOp(c *Client) (Decision, bool) {
 	p := s.Cfg.P
 	rid := pickOne(s, p.RIDs)
 	x := s.rng.Float64()
+	if !p.fault("get_overlap") {
+		// The region "a client get request overlapping other requests of the same
+		// connection" is dense with known findings (F-7, F-8, F-16, F-17): it is
+		// only generated when this fault kind is armed, and such connections are
+		// then judged for crashes and missing responses only.
+		anyPending, getPending := false, false
+		for _, r := range c.ReqL {
+			if r.Resp == nil && r.Action != "unsubscribe" && r.Action != "version" {
+				anyPending = true
+				if r.Action == "get" {
+					getPending = true
+				}
+			}
+		}
+		if x >= 0.67 && x < 0.80 && anyPending {
+			x = 0.1
+		}
+		if getPending && (x < 0.42 || (x >= 0.80 && x < 0.96)) {
+			return Decision{}, false
+		}
+	}
 	switch {
 	case x < 0.42:
 		return cliReq(c, "subscribe."+rid, ""), true
